@@ -110,11 +110,7 @@ Qed.
 Lemma atoi_int64 s z : atoi s = Some z -> in_int64 z = true.
 Proof.
   unfold atoi.
-  destruct (match s with
-            | 45%N :: r => (true, r)
-            | 43%N :: r => (false, r)
-            | _ => (false, s)
-            end) as [neg d].
+  destruct (sign_of s) as [neg d].
   destruct d as [|c d]; [discriminate|].
   destruct (digits_val (c :: d) 0) as [v|]; [|discriminate].
   destruct (in_int64 (if neg then - v else v)) eqn:E; [|discriminate].
